@@ -133,6 +133,16 @@ def fl(x):
     return [float(v) for v in np.asarray(x, dtype=float).tolist()]
 
 
+def _sf0(consts):
+    x = consts["stored_food"].initial_available.kcals
+    try:
+        return float(x)
+    except TypeError:
+        if not consts["ADD_STORED_FOOD"]:   # never read by the optimiser in that case
+            return 0.0
+        raise
+
+
 def extract_lp_in(consts, tc, opt_type):
     """every field of consts_for_optimizer / time_consts that the optimiser reads for kcals (-> Model/LP.v lp_in)"""
     n = int(consts["NMONTHS"])
@@ -153,7 +163,7 @@ def extract_lp_in(consts, tc, opt_type):
         "w_sf": float(consts["STORED_FOOD_WASTE_RETAIL"]), "w_cr": float(consts["CROP_WASTE_RETAIL"]),
         "w_meat": float(consts["MEAT_WASTE_RETAIL"]), "w_scp": float(consts["SCP_RETAIL_WASTE"]),
         "w_cs": float(consts["CELL_SUGAR_RETAIL_WASTE"]), "w_sw": float(consts["SEAWEED_WASTE_RETAIL"]),
-        "sf0": float(consts["stored_food"].initial_available.kcals),
+        "sf0": _sf0(consts),
         "meat_total": float(consts["meat_summed_consumption"]),
         "sw_kcals": float(consts["SEAWEED_KCALS"]), "sw_init": float(consts["INITIAL_SEAWEED"]),
         "sw_init_area": float(consts["INITIAL_BUILT_SEAWEED_AREA"]),
